@@ -7,9 +7,6 @@ import CedarGo.Model.Text.Fragment
 namespace CedarGo.Text
 open CedarGo
 
-theorem noFFFD_iff (s : String) : noFFFD s = true ↔ NoFFFD s := by
-  simp [noFFFD, NoFFFD]
-
 /-- `Rend` is closed under lowering the required level -/
 theorem rend_mono {p lvl : Nat} {x : Expr} {ts : List Token} (h : Rend (.e p x) ts) (hl : lvl ≤ p) : Rend (.e lvl x) ts := by
   cases h with
@@ -17,9 +14,9 @@ theorem rend_mono {p lvl : Nat} {x : Expr} {ts : List Token} (h : Rend (.e p x) 
   | litBool b => exact .litBool b
   | litNat n hn => exact .litNat n hn
   | litNeg n hn hp => exact .litNeg n hn (by omega)
-  | litStr s hs => exact .litStr s hs
+  | litStr s => exact .litStr s
   | var v => exact .var v
-  | entity ty id first parts hp hid => exact .entity ty id first parts hp hid
+  | entity ty id first parts hp => exact .entity ty id first parts hp
   | is ty first parts hpa h hp => exact .is ty first parts hpa h (by omega)
   | isIn ty first parts hpa h1 h2 hp => exact .isIn ty first parts hpa h1 h2 (by omega)
   | not h hp => exact .not h (by omega)
@@ -30,9 +27,9 @@ theorem rend_mono {p lvl : Nat} {x : Expr} {ts : List Token} (h : Rend (.e p x) 
   | ite h1 h2 h3 => have : lvl = 0 := by omega
                     subst this; exact .ite h1 h2 h3
   | accessDot a h hp => exact .accessDot a h (by omega)
-  | accessIdx a ha h hp => exact .accessIdx a ha h (by omega)
+  | accessIdx a h hp => exact .accessIdx a h (by omega)
   | hasId a h hp => exact .hasId a h (by omega)
-  | hasStr a ha h hp => exact .hasStr a ha h (by omega)
+  | hasStr a h hp => exact .hasStr a h (by omega)
   | set h => exact .set h
   | record h hn => exact .record h hn
   | callFn hf h => exact .callFn hf h
@@ -80,159 +77,110 @@ theorem checkFunction_of_callOK (fn : String) (args : List Expr) (hm : isMethodN
 theorem isIdentName_ne_rbrace (k : String) (h : isIdentName k = true) : k ≠ "}" := by
   intro hk; subst hk; revert h; decide
 
-theorem render_ne_nil (full : Bool) (e : Expr) (h : inFrag full e = true) : render full e ≠ [] := by
-  cases e with
-  | lit v =>
-    cases v <;> simp [inFrag] at h <;> simp [render, renderLit]
-    split <;> simp
-  | var v => simp [render]
-  | unop op e => cases op <;> simp [render]
-  | binop op l r => simp only [render]; split <;> simp
-  | ite c t e => simp [render]
-  | access e a => simp only [render, accessToks]; split <;> simp
-  | has e a => simp [render]
-  | like e p => simp [inFrag] at h
-  | is e ty => simp [render]
-  | isIn e ty r => simp [render]
-  | set es => simp [render]
-  | record kes => simp [render]
-  | call fn args =>
-    simp only [inFrag, Bool.and_eq_true, callOK] at h
-    cases args with
-    | nil =>
-      simp only [render]
-      split
-      · rename_i hm; simp [hm] at h
-      · simp
-    | cons r rest =>
-      simp only [render]
-      split <;> simp
-
 theorem peek_append_of_ne {ts : List Token} (h : ts ≠ []) (more : List Token) : peek (ts ++ more) = peek ts := by
   cases ts with
   | nil => exact absurd rfl h
   | cons _ _ => rfl
 
-/-- head of an operand: parenthesised, or the operand's own head -/
-theorem peek_wrapIf (b : Bool) (ts more : List Token) (h : ts ≠ []) :
-    peek (wrapIf b ts ++ more) = if b then opT "(" else peek ts := by
-  cases b with
-  | true => rfl
-  | false => simp only [wrapIf, Bool.false_eq_true, ↓reduceIte]; exact peek_append_of_ne h more
+/-! ## the first tokens of a valid rendering
 
-theorem head_operand (e : Expr) (q : Nat) (more : List Token) (hne : render false e ≠ [])
-    (h : prec e < q ∨ ((peek (render false e)).ty == .int) = false) :
-    ((peek (wrapIf (false || decide (prec e < q)) (render false e) ++ more)).ty == .int) = false := by
-  rw [peek_wrapIf _ _ _ hne]
-  by_cases hq : prec e < q
-  · simp [hq, opT]
-  · simp only [Bool.false_or, hq, decide_false, Bool.false_eq_true, ↓reduceIte]
-    rcases h with h | h
-    · exact absurd h hq
-    · exact h
+  `-` followed by a rendering `ts` is read as a negation unless the parser's negative-literal special case applies
+  (`negLitAt ts`): `ts` starts with an INT token that is not the receiver of a member access.  A valid rendering at
+  unary level or above that starts with an INT token is either a bare non-negative literal or a member chain rooted
+  at one — in which case its second token is `.` or `[`. -/
 
-/-- if `headInt e` is false, the `renderMin` rendering of `e` does not start with an INT token -/
-theorem headInt_spec : ∀ (e : Expr), inFrag false e = true → headInt e = false → ((peek (render false e)).ty == .int) = false
-  | .lit v, h, hh => by
-    cases v <;> simp [inFrag] at h
-    · rename_i b; cases b <;> rfl
-    · rename_i n
-      simp only [headInt, decide_eq_false_iff_not, Int.not_le] at hh
-      simp [render, renderLit, hh, peek, opT]
-    · rfl
-    · rename_i ty id
-      obtain ⟨first, parts, hp⟩ := pathOK_of_isPathName ty h.1
-      simp only [render, renderLit, hp.toks]
-      rfl
-  | .var _, _, _ => rfl
-  | .unop .not _, _, _ => rfl
-  | .unop .neg _, _, _ => rfl
-  | .unop .isEmpty e, h, hh => by
-    simp only [inFrag] at h
-    simp only [headInt, Bool.and_eq_false_iff, decide_eq_false_iff_not, Nat.not_le] at hh
-    simp only [render]
-    refine head_operand e 7 _ (render_ne_nil false e h) ?_
-    rcases hh with hh | hh
-    · exact .inl hh
-    · exact .inr (headInt_spec e h hh)
-  | .binop op l r, h, hh => by
-    simp only [inFrag, Bool.and_eq_true] at h
-    simp only [headInt] at hh
-    simp only [render]
-    cases hf : binForm op with
-    | infixOp tok lp rp =>
-      simp only [hf, Bool.and_eq_false_iff, decide_eq_false_iff_not, Nat.not_le] at hh ⊢
-      refine head_operand l lp _ (render_ne_nil false l h.1) ?_
-      rcases hh with hh | hh
-      · exact .inl hh
-      · exact .inr (headInt_spec l h.1 hh)
-    | method name =>
-      simp only [hf, Bool.and_eq_false_iff, decide_eq_false_iff_not, Nat.not_le] at hh ⊢
-      refine head_operand l 7 _ (render_ne_nil false l h.1) ?_
-      rcases hh with hh | hh
-      · exact .inl hh
-      · exact .inr (headInt_spec l h.1 hh)
-  | .ite _ _ _, _, _ => rfl
-  | .access e a, h, hh => by
-    simp only [inFrag, Bool.and_eq_true] at h
-    simp only [headInt, Bool.and_eq_false_iff, decide_eq_false_iff_not, Nat.not_le] at hh
-    simp only [render]
-    refine head_operand e 7 _ (render_ne_nil false e h.1) ?_
-    rcases hh with hh | hh
-    · exact .inl hh
-    · exact .inr (headInt_spec e h.1 hh)
-  | .has e a, h, hh => by
-    simp only [inFrag, Bool.and_eq_true] at h
-    simp only [headInt, Bool.and_eq_false_iff, decide_eq_false_iff_not, Nat.not_le] at hh
-    simp only [render]
-    refine head_operand e 4 _ (render_ne_nil false e h.1) ?_
-    rcases hh with hh | hh
-    · exact .inl hh
-    · exact .inr (headInt_spec e h.1 hh)
-  | .like _ _, h, _ => by simp [inFrag] at h
-  | .is e ty, h, hh => by
-    simp only [inFrag, Bool.and_eq_true] at h
-    simp only [headInt, Bool.and_eq_false_iff, decide_eq_false_iff_not, Nat.not_le] at hh
-    simp only [render]
-    refine head_operand e 4 _ (render_ne_nil false e h.1) ?_
-    rcases hh with hh | hh
-    · exact .inl hh
-    · exact .inr (headInt_spec e h.1 hh)
-  | .isIn e ty r, h, hh => by
-    simp only [inFrag, Bool.and_eq_true] at h
-    simp only [headInt, Bool.and_eq_false_iff, decide_eq_false_iff_not, Nat.not_le] at hh
-    simp only [render]
-    refine head_operand e 4 _ (render_ne_nil false e h.1.1) ?_
-    rcases hh with hh | hh
-    · exact .inl hh
-    · exact .inr (headInt_spec e h.1.1 hh)
-  | .set _, _, _ => rfl
-  | .record _, _, _ => rfl
-  | .call fn [], h, _ => by
-    simp only [inFrag, Bool.and_eq_true, callOK] at h
-    simp only [render]
-    split
-    · rename_i hm; simp [hm] at h
-    · rfl
-  | .call fn (recv :: rest), h, hh => by
-    simp only [inFrag, inFragList, Bool.and_eq_true] at h
-    simp only [render]
-    split
-    · rename_i hm
-      simp only [headInt, hm, Bool.true_and, Bool.and_eq_false_iff, decide_eq_false_iff_not, Nat.not_le] at hh
-      refine head_operand recv 7 _ (render_ne_nil false recv h.2.1) ?_
-      rcases hh with hh | hh
-      · exact .inl hh
-      · exact .inr (headInt_spec recv h.2.1 hh)
-    · rfl
+def HeadSpec : Item → List Token → Prop
+  | .e lvl x, ts => ts ≠ [] ∧ (6 ≤ lvl → ((peek ts).ty == .int) = true →
+      (isNonNegLong x = true ∧ ∃ n, ts = [intT n]) ∨ memberFollows ts = true)
+  | _, _ => True
 
-theorem keyTok_attrTok (full : Bool) (k : String) (hk : noFFFD k = true) : KeyTok k (attrTok full k) := by
+theorem headSpec_nonint {lvl : Nat} (x : Expr) (t : Token) (tl : List Token) (h : (t.ty == .int) = false) :
+    HeadSpec (.e lvl x) (t :: tl) :=
+  ⟨by simp, fun _ hd => by simp [peek, h] at hd⟩
+
+theorem headSpec_low {lvl : Nat} (x : Expr) {ts : List Token} (hne : ts ≠ []) (hl : lvl ≤ 5) : HeadSpec (.e lvl x) ts :=
+  ⟨hne, fun h6 => by omega⟩
+
+theorem memberFollows_postfix {tr : List Token} (sep : Token) (more : List Token)
+    (hsep : (sep.text == "." || sep.text == "[") = true)
+    (h : (∃ n, tr = [intT n]) ∨ memberFollows tr = true) : memberFollows (tr ++ sep :: more) = true := by
+  rcases h with ⟨n, rfl⟩ | h
+  · exact hsep
+  · cases tr with
+    | nil => simp [memberFollows, peek, adv, eofTok] at h
+    | cons t tl =>
+      cases tl with
+      | nil => simp [memberFollows, peek, adv, eofTok] at h
+      | cons t' tl' => exact h
+
+/-- receiver, then `.` or `[` -/
+theorem headSpec_postfix {lvl : Nat} (x : Expr) {x' : Expr} {tr : List Token} (ih : HeadSpec (.e 7 x') tr) (sep : Token)
+    (more : List Token) (hsep : (sep.text == "." || sep.text == "[") = true) : HeadSpec (.e lvl x) (tr ++ sep :: more) := by
+  refine ⟨by simp, fun _ hd => .inr ?_⟩
+  rw [peek_append_of_ne ih.1] at hd
+  refine memberFollows_postfix sep more hsep ?_
+  rcases ih.2 (by omega) hd with ⟨_, hn⟩ | hm
+  · exact .inl hn
+  · exact .inr hm
+
+theorem binPrec_infix_le {op : BinOp} {tok : Token} {lp rp : Nat} (h : binForm op = .infixOp tok lp rp) : binPrec op ≤ 5 := by
+  cases op <;> simp [binForm] at h <;> simp [binPrec]
+
+theorem rend_head {it : Item} {ts : List Token} (h : Rend it ts) : HeadSpec it ts := by
+  induction h with
+  | @paren lvl x ts _ _ => exact headSpec_nonint x _ _ rfl
+  | @litBool lvl b => exact headSpec_nonint _ _ _ rfl
+  | @litNat lvl n hn => exact ⟨by simp, fun _ _ => .inl ⟨by simp [isNonNegLong], n, rfl⟩⟩
+  | @litNeg lvl n hn hlvl => exact headSpec_nonint _ _ _ rfl
+  | @litStr lvl s => exact headSpec_nonint _ _ _ rfl
+  | @var lvl v => exact headSpec_nonint _ _ _ rfl
+  | @entity lvl ty id first parts hp =>
+    rw [hp.toks]
+    exact headSpec_nonint _ _ _ rfl
+  | @is lvl x ts ty first parts hp _ hlvl ih => exact headSpec_low _ (by simp [ih.1]) (by omega)
+  | @isIn lvl x r ts tr ty first parts hp _ _ hlvl ihx _ => exact headSpec_low _ (by simp [ihx.1]) (by omega)
+  | @not lvl x ts _ hlvl _ => exact headSpec_nonint _ _ _ rfl
+  | @neg lvl x ts _ hi hlvl _ => exact headSpec_nonint _ _ _ rfl
+  | @isEmpty lvl x ts _ hlvl ih => exact headSpec_postfix _ ih _ _ rfl
+  | @infixOp lvl op tok lp rp l r tl tr hf _ _ hlvl ihl _ =>
+    exact headSpec_low _ (by simp) (Nat.le_trans hlvl (binPrec_infix_le hf))
+  | @method lvl op name l r tl tr hf _ _ hlvl ihl _ => exact headSpec_postfix _ ihl _ _ rfl
+  | @ite c t e tc tt te _ _ _ _ _ _ => exact headSpec_nonint _ _ _ rfl
+  | @accessDot lvl x ts a _ hlvl ih => exact headSpec_postfix _ ih _ _ rfl
+  | @accessIdx lvl x ts a _ hlvl ih => exact headSpec_postfix _ ih _ _ rfl
+  | @hasId lvl x ts a _ hlvl ih => exact headSpec_low _ (by simp) (by omega)
+  | @hasStr lvl x ts a _ hlvl ih => exact headSpec_low _ (by simp) (by omega)
+  | @set lvl es ts _ _ => exact headSpec_nonint _ _ _ rfl
+  | @record lvl kes ts _ hnd _ => exact headSpec_nonint _ _ _ rfl
+  | @callFn lvl fn as ts hf _ _ => exact headSpec_nonint _ _ _ rfl
+  | @callMethod lvl fn recv as tr ta hm _ _ hlvl ihr _ => exact headSpec_postfix _ ihr _ _ rfl
+  | argsNil => trivial
+  | argsOne _ _ => trivial
+  | argsCons _ _ _ _ => trivial
+  | kvsNil => trivial
+  | kvsOne _ _ _ => trivial
+  | kvsCons _ _ _ _ _ _ => trivial
+
+/-- `-` in front of a valid unary-level rendering of anything but a bare non-negative literal is a negation -/
+theorem negLitAt_of_rend {lvl : Nat} {x : Expr} {ts : List Token} (h : Rend (.e lvl x) ts) (hl : 6 ≤ lvl)
+    (hx : isNonNegLong x = false) : negLitAt ts = false := by
+  have hs := rend_head h
+  cases hi : ((peek ts).ty == .int) with
+  | false => simp [negLitAt, hi]
+  | true =>
+    rcases hs.2 hl hi with ⟨hn, _⟩ | hm
+    · rw [hx] at hn; cases hn
+    · simp [negLitAt, hm]
+
+theorem negLitAt_paren (ts : List Token) : negLitAt (opT "(" :: ts) = false := rfl
+
+theorem keyTok_attrTok (full : Bool) (k : String) : KeyTok k (attrTok full k) := by
   unfold attrTok
   split
   · rename_i h
     simp only [Bool.and_eq_true, Bool.not_eq_true'] at h
     exact keyTok_ident k (isIdentName_ne_rbrace k h.2)
-  · exact keyTok_string k ((noFFFD_iff k).mp hk)
+  · exact keyTok_string k
 
 theorem int_natAbs_neg (n : Int) (h : n < 0) : -(Int.ofNat n.natAbs) = n := by
   show -((n.natAbs : Nat) : Int) = n
@@ -267,40 +215,33 @@ theorem render_rend (full : Bool) : ∀ (e : Expr), inFrag full e = true → Ren
         have := Rend.litNat (lvl := 8) n.toNat (by omega)
         rw [int_toNat_nonneg n hn] at this
         exact this
-    · rename_i s; exact .litStr s ((noFFFD_iff s).mp h)
+    · rename_i s; exact .litStr s
     · rename_i ty id
-      obtain ⟨first, parts, hp⟩ := pathOK_of_isPathName ty h.1
-      exact .entity ty id first parts hp ((noFFFD_iff id).mp h.2)
+      obtain ⟨first, parts, hp⟩ := pathOK_of_isPathName ty h
+      exact .entity ty id first parts hp
   | .var v, _ => .var v
   | .unop .not e, h => by
     simp only [inFrag] at h
     exact .not (rend_wrap (render_rend full e h) (full || decide (prec e < 6)) 6 wrap_le) (Nat.le_refl _)
   | .unop .neg e, h => by
-    simp only [inFrag, Bool.and_eq_true] at h
-    have hr := render_rend full e h.1
-    have hne := render_ne_nil full e h.1
+    simp only [inFrag] at h
+    have hr := render_rend full e h
     have hp : prec (.unop .neg e) = 6 := rfl
     rw [hp]
     simp only [render]
-    refine .neg (rend_wrap hr (full || decide (prec e < 6) || isNonNegLong e) 6 (by
-      intro hb
-      simp only [Bool.or_eq_false_iff] at hb
-      exact wrap_le (full := full) (by simp [hb.1.1, hb.1.2]))) ?_ (Nat.le_refl _)
-    have hpk := peek_wrapIf (full || decide (prec e < 6) || isNonNegLong e) (render full e) [] hne
-    rw [List.append_nil] at hpk
-    rw [hpk]
+    have hw : Rend (.e 6 e) (wrapIf (full || decide (prec e < 6) || isNonNegLong e) (render full e)) :=
+      rend_wrap hr (full || decide (prec e < 6) || isNonNegLong e) 6 (by
+        intro hb
+        simp only [Bool.or_eq_false_iff] at hb
+        exact wrap_le (full := full) (by simp [hb.1.1, hb.1.2]))
+    refine .neg hw ?_ (Nat.le_refl _)
     by_cases hb : (full || decide (prec e < 6) || isNonNegLong e) = true
-    · simp [hb, opT]
-    · simp only [hb, Bool.false_eq_true, ↓reduceIte]
-      simp only [Bool.or_eq_true, decide_eq_true_eq, not_or, Bool.not_eq_true] at hb
-      have hfull : full = false := hb.1.1
-      subst hfull
-      have h2 := h.2
-      simp only [Bool.false_or, Bool.or_eq_true, decide_eq_true_eq, Bool.not_eq_true'] at h2
-      rcases h2 with (h2 | h2) | h2
-      · exact absurd h2 hb.1.2
-      · rw [hb.2] at h2; cases h2
-      · exact headInt_spec e h.1 h2
+    · simp only [hb, wrapIf, ↓reduceIte]
+      exact negLitAt_paren _
+    · have hb' : (full || decide (prec e < 6) || isNonNegLong e) = false := by simpa using hb
+      simp only [Bool.or_eq_false_iff] at hb'
+      rw [show (full || decide (prec e < 6) || isNonNegLong e) = false by simp [hb'.1.1, hb'.1.2, hb'.2]] at hw ⊢
+      exact negLitAt_of_rend hw (Nat.le_refl _) hb'.2
   | .unop .isEmpty e, h => by
     simp only [inFrag] at h
     exact .isEmpty (rend_wrap (render_rend full e h) (full || decide (prec e < 7)) 7 wrap_le) (Nat.le_refl _)
@@ -327,8 +268,8 @@ theorem render_rend (full : Bool) : ∀ (e : Expr), inFrag full e = true → Ren
       (rend_wrap (render_rend full t h.1.2) full 0 (fun _ => Nat.zero_le _))
       (rend_wrap (render_rend full e h.2) full 0 (fun _ => Nat.zero_le _))
   | .access e a, h => by
-    simp only [inFrag, Bool.and_eq_true] at h
-    have hr := rend_wrap (render_rend full e h.1) (full || decide (prec e < 7)) 7 wrap_le
+    simp only [inFrag] at h
+    have hr := rend_wrap (render_rend full e h) (full || decide (prec e < 7)) 7 wrap_le
     have hp : prec (.access e a) = 7 := rfl
     rw [hp]
     simp only [render, accessToks]
@@ -336,10 +277,10 @@ theorem render_rend (full : Bool) : ∀ (e : Expr), inFrag full e = true → Ren
     · simp only [hc, ↓reduceIte]
       exact .accessDot a hr (Nat.le_refl _)
     · simp only [hc, Bool.false_eq_true, ↓reduceIte]
-      exact .accessIdx a ((noFFFD_iff a).mp h.2) hr (Nat.le_refl _)
+      exact .accessIdx a hr (Nat.le_refl _)
   | .has e a, h => by
-    simp only [inFrag, Bool.and_eq_true] at h
-    have hr := rend_wrap (render_rend full e h.1) (full || decide (prec e < 4)) 4 wrap_le
+    simp only [inFrag] at h
+    have hr := rend_wrap (render_rend full e h) (full || decide (prec e < 4)) 4 wrap_le
     have hp : prec (.has e a) = 3 := rfl
     rw [hp]
     simp only [render, attrTok]
@@ -347,7 +288,7 @@ theorem render_rend (full : Bool) : ∀ (e : Expr), inFrag full e = true → Ren
     · simp only [hc, ↓reduceIte]
       exact .hasId a hr (Nat.le_refl _)
     · simp only [hc, Bool.false_eq_true, ↓reduceIte]
-      exact .hasStr a ((noFFFD_iff a).mp h.2) hr (Nat.le_refl _)
+      exact .hasStr a hr (Nat.le_refl _)
   | .like _ _, h => by simp [inFrag] at h
   | .is e ty, h => by
     simp only [inFrag, Bool.and_eq_true] at h
@@ -400,13 +341,13 @@ theorem renderArgs_rend (full : Bool) : ∀ (es : List Expr), inFragList full es
 theorem renderKVs_rend (full : Bool) : ∀ (kes : List (String × Expr)), inFragKVs full kes = true → Rend (.kvs kes) (renderKVs full kes)
   | [], _ => .kvsNil
   | [(k, e)], h => by
-    simp only [inFragKVs, Bool.and_true, Bool.and_eq_true] at h
-    exact .kvsOne (keyTok_attrTok full k h.1) (rend_wrap (render_rend full e h.2) full 0 (fun _ => Nat.zero_le _))
+    simp only [inFragKVs, Bool.and_true] at h
+    exact .kvsOne (keyTok_attrTok full k) (rend_wrap (render_rend full e h) full 0 (fun _ => Nat.zero_le _))
   | (k, e) :: ke' :: kes, h => by
     rw [inFragKVs] at h
     simp only [Bool.and_eq_true] at h
     have h2 : inFragKVs full (ke' :: kes) = true := h.2
-    exact .kvsCons (keyTok_attrTok full k h.1.1) (rend_wrap (render_rend full e h.1.2) full 0 (fun _ => Nat.zero_le _)) (by simp)
+    exact .kvsCons (keyTok_attrTok full k) (rend_wrap (render_rend full e h.1) full 0 (fun _ => Nat.zero_le _)) (by simp)
       (renderKVs_rend full (ke' :: kes) h2)
 end
 
